@@ -111,6 +111,11 @@ func c19SignedVC() []byte {
 	return b
 }
 
+const c19Manifest = `{"id":"c19-manifest","version":"0.1.0","issuer":{"id":"did:example:123","name":"Example Authority","styles":{}},
+ "output_descriptors":[{"id":"od1","schema":"https://www.w3.org/2018/credentials/v1",
+  "display":{"title":{"path":["$.title"],"schema":{"type":"string"},"fallback":"A credential"},
+   "description":{"text":"a credential"},"properties":[{"path":["$.credentialSubject.id"],"schema":{"type":"string"},"fallback":"-","label":"subject"}]}}]}`
+
 var (
 	c19BBS      []byte
 	c19BBSFrame map[string]interface{}
@@ -379,7 +384,14 @@ func c19Run(input string) string {
 						o = "derive-instance-not-guarded"
 					}
 				}
+				// a credential manifest resolved against a credential handed in by the caller
+				if _, e := w.ResolveCredentialManifest(tok(f[2]), []byte(c19Manifest), wallet.ResolveRawCredential("od1", c19SignedVC())); e == nil {
+					o = "resolve-manifest-not-guarded"
+				}
 			} else {
+				if _, e := w.ResolveCredentialManifest(tok(f[2]), []byte(c19Manifest), wallet.ResolveRawCredential("od1", c19SignedVC())); e != nil {
+					o = "resolve-manifest-with-live-token-failed"
+				}
 				// with a live token of the profile the derivation works (the probes above are not refused for another reason)
 				if _, e := w.Derive(tok(f[2]), wallet.FromRawCredential(bbsVC), dopts); e != nil {
 					o = "derive-with-live-token-failed"
